@@ -247,6 +247,11 @@ def conform(ip, st, v, ty):
         if isinstance(v, Tup) and len(v.items) == len(args):
             return Tup([conform(ip, st, x, a) for x, a in zip(v.items, args)])
         raise Mismatch(ty)
+    if head == "KwDict":
+        if isinstance(v, Ref) and isinstance(st.heap[v.cid], PyDictCell):
+            kw_conform(ip, st, st.heap[v.cid].items, ty)
+            return v
+        raise Mismatch(ty)
     if head == "Iter":
         if isinstance(v, Ref) and isinstance(st.heap[v.cid], IterCell):
             return v
@@ -327,7 +332,9 @@ def eval_spec(ip, st, env, text, old=None):
                 v = ip.ev1(node, s)
                 terms.append(ip.truth(s, v))
             except Exception as e:
-                if not terms or type(e).__name__ not in ("Unsupported", "KeyError", "IndexError", "AttributeError"):
+                unbound = type(e).__name__ == "Unsupported" and "unbound name in spec" in str(e)
+                if not (unbound and len(parts) > 1) and \
+                        (not terms or type(e).__name__ not in ("Unsupported", "KeyError", "IndexError", "AttributeError")):
                     raise
                 # a consequent that is ill-typed on this path: an unknown truth value (provable only if the antecedent
                 # is refuted; gives no information when assumed)
@@ -377,11 +384,13 @@ def select_case(ip, st, c, args, kws):
 
 
 def bind_contract_args(ip, st, c, args, kws, dry=False):
-    names = list(c.params.keys())
+    vararg, kwarg = getattr(c, "vararg", None), getattr(c, "kwarg", None)
+    names = [n for n in c.params.keys() if n not in (vararg, kwarg)]
     env = {}
     vals = list(args)
     if len(vals) > len(names):
-        raise Mismatch("too many arguments for %s" % c.name)
+        if vararg is None:
+            raise Mismatch("too many arguments for %s" % c.name)
     for n, v in zip(names, vals):
         env[n] = conform(ip, st, v, c.params[n])
     for n in names[len(vals):]:
@@ -391,10 +400,41 @@ def bind_contract_args(ip, st, c, args, kws, dry=False):
             env[n] = conform(ip, st, default_value(ip, c.defaults[n]), c.params[n])
         else:
             raise Mismatch("missing argument %s of %s" % (n, c.name))
+    if vararg is not None:
+        # def f(..., *args): the surplus positional arguments, as a tuple (python's own binding rule)
+        env[vararg] = conform(ip, st, Tup(vals[len(names):]), c.params[vararg])
+    extra = {}
     for k in kws:
         if k not in names:
-            raise Mismatch("unexpected keyword " + k)
+            if kwarg is None:
+                raise Mismatch("unexpected keyword " + k)
+            extra[k] = kws[k]
+    if kwarg is not None:
+        # def f(..., **kwargs): the keyword arguments that name no parameter, as a NEW dictionary (one per call)
+        head = c.params[kwarg].split("[")[0].strip()
+        if head != "KwDict":
+            raise U("**%s of %s must be typed KwDict[...]" % (kwarg, c.name))
+        items = kw_conform(ip, st, extra, c.params[kwarg])
+        env[kwarg] = None if dry else ip.new_cell(st, PyDictCell(items))
     return env
+
+
+def kw_fields(ty):
+    from .interp import parse_type
+    head, args = parse_type(ty)
+    out = {}
+    for a in args:
+        k, t = a.split(":", 1)
+        out[k.strip()] = t.strip()
+    return out
+
+
+def kw_conform(ip, st, items, ty):
+    """keyword dictionary {name: value} against KwDict[name:Type,...]: exactly the declared names"""
+    want = kw_fields(ty)
+    if set(want) != set(items):
+        raise Mismatch("keywords %s do not fit %s" % (sorted(items), ty))
+    return {k: conform(ip, st, items[k], want[k]) for k in items}
 
 
 def default_value(ip, d):
@@ -478,6 +518,9 @@ def havoc_value(ip, st, v, name):
 def apply_contract(ip, st, c, args, kws):
     """caller side: check the precondition, havoc the frame, assume the postcondition; fork on declared raises"""
     if c.inline:
+        if c.qual in ("get_data_context",) and len(args) == 1 and isinstance(args[0], Opaque) and args[0].sort == "V":
+            from .lib import lib_get_data_context_v
+            return lib_get_data_context_v(ip, st, args, kws)
         return inline_contract(ip, st, c, args, kws)
     case = select_case(ip, st, c, args, kws)
     try:
@@ -530,6 +573,9 @@ def apply_contract(ip, st, c, args, kws):
     elif case.result is not None:
         res = ip.make(case.result, "res_" + case.simple, st)
         env2["result"] = res
+        if isinstance(res, Ref) and any(cl.replace(" ", "") == "is_deep_copy(result)" for cl in case.ensures):
+            # the callee's (proved or assumed) postcondition hands out a deep copy: provenance of the new object
+            st.notes["deep_copies"] = set(st.notes.get("deep_copies", ())) | {res.cid}
     else:
         res = NONE
         env2["result"] = NONE
@@ -915,7 +961,13 @@ def _sf_is_deep_copy(ip, e, st):
     return Bool(TRUE if isinstance(v, (Num, Bool, NoneV, Str)) else FALSE)
 
 
-SPEC_FORMS = {"is_deep_copy": _sf_is_deep_copy, "in_loop": _sf_in_loop, "made_in_iteration": _sf_made_in_iteration, "is_fresh": _sf_is_fresh, "arith_next": _sf_arith_next, "old": _sf_old, "implies": _sf_implies, "iff": _sf_iff, "pulled": _sf_pulled, "content": _sf_content,
+def _sf_is_iterator(ip, e, st):
+    """is_iterator(x): x supports next() (an iterator / generator), not merely iteration (a list, tuple, range)"""
+    v = ip.ev1(e.args[0], st)
+    return Bool(TRUE if (isinstance(v, Ref) and isinstance(st.heap[v.cid], IterCell)) else FALSE)
+
+
+SPEC_FORMS = {"is_iterator": _sf_is_iterator, "is_deep_copy": _sf_is_deep_copy, "in_loop": _sf_in_loop, "made_in_iteration": _sf_made_in_iteration, "is_fresh": _sf_is_fresh, "arith_next": _sf_arith_next, "old": _sf_old, "implies": _sf_implies, "iff": _sf_iff, "pulled": _sf_pulled, "content": _sf_content,
               "rest": _sf_rest}
 SPEC_FORMS.update(_dict_forms())
 from .lib import FS_FORMS as _FS_FORMS
